@@ -21,7 +21,7 @@ Theorem desc_ok_single_line o desc :
   desc_ok o (Some desc).
 Proof.
   intros Hp Hpl Hb Hl Hlast Hsc.
-  destruct (description_roundtrip_single_line o desc 0 Hpl Hb Hl) as [Hbody Hval]; [rewrite ind0; cbn [length]; lia|].
+  destruct (description_roundtrip_single_line o desc 0 Hpl Hb Hl) as [Hbody Hval]; [rewrite ind0; cbn [length]; lia|exact Hlast|].
   cbn [desc_ok]. rewrite Hbody in *. rewrite (unescape_triple_plain _ Hpl) in Hval.
   split; [destruct desc; [discriminate|discriminate]|]. split; [exact Hp|]. split; [|exact Hval].
   split; [|split; [intros _; exact Hlast|exact Hsc]].
@@ -35,7 +35,7 @@ Lemma block_body_form o desc depth :
   let indent := ind o depth in
   forallb clean_line lines = true ->
   forallb (fun l => Nat.leb (length l) (120 - length indent)) lines = true ->
-  (2 <= length lines \/ 70 <= length (hd [] lines)) ->
+  (2 <= length lines \/ 70 <= length (hd [] lines) \/ ends_with_qb (hd [] lines) = true) ->
   description_body o desc depth = join nl ([] :: map (fun l => indent ++ l) lines ++ [indent]).
 Proof.
   intros lines indent Hclean Hlen Hblock.
@@ -47,11 +47,12 @@ Proof.
   assert (Hl0 : clean_line l0 = true) by (cbn [forallb] in Hclean; apply andb_prop in Hclean; tauto).
   unfold description_body. fold indent. fold lines. rewrite Hlines.
   rewrite (wrapped_id _ _ Hlen). cbn [hd].
-  assert (Hcond : Nat.eqb (length (l0 :: rest)) 1 && Nat.ltb (length l0) 70 && negb (ends_with_quote l0) = false).
-  { destruct Hblock as [H2|H70].
+  assert (Hcond : Nat.eqb (length (l0 :: rest)) 1 && Nat.ltb (length l0) 70 && negb (ends_with_qb l0) = false).
+  { destruct Hblock as [H2|[H70|Hqb]].
     - destruct rest; [simpl in H2; lia|reflexivity].
     - replace (Nat.ltb (length l0) 70) with false by (symmetry; apply Nat.ltb_ge; exact H70).
-      rewrite Bool.andb_false_r. reflexivity. }
+      rewrite Bool.andb_false_r. reflexivity.
+    - rewrite Hqb. rewrite Bool.andb_false_r. reflexivity. }
   rewrite Hcond.
   assert (Hhlw : match l0 with c :: _ => py_space c | [] => false end = false).
   { unfold clean_line in Hl0. apply andb_prop in Hl0; destruct Hl0 as [_ H]. destruct l0; [reflexivity|].
@@ -93,7 +94,7 @@ Theorem desc_ok_block o desc :
   forallb clean_line lines = true ->
   forallb (fun l => Nat.leb (length l) 120) lines = true ->
   hd [] lines <> [] -> last lines [] <> [] ->
-  (2 <= length lines \/ 70 <= length (hd [] lines)) ->
+  (2 <= length lines \/ 70 <= length (hd [] lines) \/ ends_with_qb (hd [] lines) = true) ->
   Forall SourceCharacter desc ->
   desc_ok o (Some desc).
 Proof.
@@ -153,7 +154,7 @@ Theorem desc_okd_single_line o depth desc :
   desc_okd o depth (Some desc).
 Proof.
   intros Hp Hpl Hb Hl Hw Hlast Hsc.
-  destruct (description_roundtrip_single_line o desc depth Hpl Hb Hl Hw) as [Hbody Hval].
+  destruct (description_roundtrip_single_line o desc depth Hpl Hb Hl Hw Hlast) as [Hbody Hval].
   cbn [desc_okd]. rewrite Hbody in *. rewrite (unescape_triple_plain _ Hpl) in Hval.
   split; [destruct desc; [discriminate|discriminate]|]. split; [exact Hp|]. split; [|exact Hval].
   split; [|split; [intros _; exact Hlast|exact Hsc]].
@@ -167,7 +168,7 @@ Theorem desc_okd_block o depth desc :
   forallb clean_line lines = true ->
   forallb (fun l => Nat.leb (length l) (120 - length indent)) lines = true ->
   hd [] lines <> [] -> last lines [] <> [] ->
-  (2 <= length lines \/ 70 <= length (hd [] lines)) ->
+  (2 <= length lines \/ 70 <= length (hd [] lines) \/ ends_with_qb (hd [] lines) = true) ->
   Forall SourceCharacter desc ->
   desc_okd o depth (Some desc).
 Proof.
